@@ -10,11 +10,19 @@ def run(ctx: Ctx) -> None:
     from props import routemodel
     routemodel.run(ctx, 'C03')
     run_family(ctx, 'C03', 'c03', 400, 12000, d22_scenarios('C03'))
+    # the registry on its own: Registry.tla explored by TLC, its histories performed on a real ServiceRegistry, the lookups
+    # judged by TLC against RegistryContract.tla (clauses C03_Registry*)
+    from props import registrymodel
+    registrymodel.run(ctx, 'C03')
 
 
 def replay(ctx: Ctx, path: str) -> None:
     import json
     rep = json.load(open(path))['replay']
+    if 'registry_history' in rep:
+        from props import registrymodel
+        registrymodel.run(ctx, 'C03', [dict(rep['registry_history'], id='registry-replay')])
+        return
     if 'route_case' in rep:
         from props import routemodel
         routemodel.run(ctx, 'C03', [dict(rep['route_case'], id='route-replay')])
